@@ -94,7 +94,7 @@ def _check_part(w, item, parts, oracle):
         return label, tab, exp
     msg = coherence(tab, w.absent_id())
     if msg:
-        w.fail('coherence', 'partition part %r: %s' % (label, msg))
+        w.fail(oracle + '.incoherent', 'partition part %r: %s' % (label, msg))
     d = diff_ref(Snap(tab), exp)
     if d:
         w.fail(oracle, 'part %r: %s' % (label, d))
@@ -187,7 +187,7 @@ def _order_like(exp, real_ids, ax):
 def _approx_adopt(w, res, exp, oracle, what, rtol, check_type=True):
     msg = coherence(res, w.absent_id())
     if msg:
-        w.fail('coherence', what + ': ' + msg)
+        w.fail(oracle + '.incoherent', what + ': ' + msg)
     s = Snap(res)
     if s.m.shape == exp.m.shape and rtol:
         scale = np.abs(exp.m).sum()
@@ -396,6 +396,12 @@ def op_merge(w, ev, slot):
                    for r in [ref] + [p.ref for p in plist])
     # the iterable form is documented for metadata-free tables only
     listform = bool(ev.get('list', 0)) and fast_ok and (all_free or both_none)
+    if listform and not both_none and any(
+            slot.real.metadata(axis=a) is not None for a in AXNAME):
+        # "every entry empty" (reachable from partial metadata) is observably
+        # the same as no metadata, but the iterable form is only documented
+        # for tables without metadata
+        listform = False
     if not listform:
         partners = partners[:1]
     refs = [ref] + [p.ref for p in partners]
